@@ -97,7 +97,7 @@ def run_writer(ctx, prop, module, monitor_name):
         plines = [prop + " " + l for l in lines]
         dis = ctx.correspond(plines, orc, "writer.go hook trace + broker journal ↔ Model/Writer.lean (trace acceptance) + monitor " + monitor_name)
         kinds, bigrams, scen, nevents = trace_coverage(lines)
-        ctx.coverage["distinct_nontrivial"] = len(bigrams)      # distinct event bigrams (Appendix B)
+        ctx.coverage["distinct_event_bigrams"] = len(bigrams)      # distinct event bigrams (Appendix B); distinct_nontrivial (counted by ctx.correspond) = distinct traces
         ctx.coverage["events"] = nevents
         ctx.coverage["event_kinds"] = dict(sorted(kinds.items()))
         ctx.coverage["scenarios"] = scen
@@ -105,7 +105,7 @@ def run_writer(ctx, prop, module, monitor_name):
                             "random: 1-4 (thorough up to 8) concurrent callers x 1-3 successive calls x 1-12 messages, BatchSize in {1,2,3,4,5,100}, BatchBytes = k*u+{-1,0,1,7} or 1 MiB "
                             "(sizes u, u+-1, 2u, exactly BatchBytes, BatchBytes+1..3 = too large), BatchTimeout 2-8 ms, MaxAttempts 1-4, sync / Async, Completion, writer-level or message-level topics "
                             "(1-2 topics x 1-3 partitions, deterministic balancer), topic conflicts, per-partition fault scripts (ok / lost ack / drop before apply / temporary code / permanent code / other / deadline, delays), "
-                            "early concurrent Close. evaluations = traces replayed through the LTS; distinct_nontrivial = distinct event bigrams (kind + branch-selecting argument)")
+                            "early concurrent Close. evaluations = traces replayed through the LTS; distinct_nontrivial = distinct traces (distinct op lines); distinct_event_bigrams = distinct event bigrams (kind + branch-selecting argument)")
     concrete = [d for d in dis if d.get("kind") == "disagreement" and not d["holds_on_impl"]]
     others = [d for d in dis if d not in concrete]
     recorded = 0
